@@ -49,6 +49,17 @@ func (in *instance) argFor(op, tok string, m flat) (any, error) {
 	switch in.kind {
 	case "steps":
 		return nil, nil // the input of the step / signal is fixed (callStep)
+	case "patnil":
+		good := regexp.MustCompile("^a+$")
+		if tok == "good" {
+			return map[string]any{"filters": []*regexp.Regexp{good}}, nil
+		}
+		return map[string]any{"filters": []*regexp.Regexp{good, nil}}, nil // the second item is a nil pattern
+	case "emptydef":
+		if tok == "empty_a" {
+			return EmptyA{}, nil
+		}
+		return EmptyB{}, nil
 	case "listarg":
 		// same_type: a container of exactly the Go type the result has; its elements are raw (ints of other widths,
 		// maps without the defaults / with the discriminator); *_bad: the last element is refused
@@ -474,12 +485,19 @@ func (in *instance) callWith(op, tok string, m flat, arg any, shared bool) (o ob
 			switch op {
 			case "unser":
 				res, cerr = in.target.Unserialize(arg)
+			case "ser", "valid":
+				t := in.target
+				if in.kind == "emptydef" {
+					// the operations are issued on the object the value belongs to
+					t = in.scope.Objects()[map[string]string{"empty_a": "A", "empty_b": "B"}[tok]]
+				}
+				if op == "ser" {
+					res, cerr = t.Serialize(arg)
+				} else {
+					cerr, hasValue = t.Validate(arg), false
+				}
 			case "unsermid":
 				res, cerr = in.scope.Objects()["mid"].Unserialize(arg)
-			case "ser":
-				res, cerr = in.target.Serialize(arg)
-			case "valid":
-				cerr, hasValue = in.target.Validate(arg), false
 			case "compat":
 				if strings.HasPrefix(tok, "scope_") {
 					cerr, hasValue = in.scope.ValidateCompatibility(arg), false
@@ -510,7 +528,7 @@ func (in *instance) callWith(op, tok string, m flat, arg any, shared bool) (o ob
 			// iteration order of the input by nature: the rejection is compared, not the key it names
 			o.ErrKey = "duplicate key"
 		}
-		if in.kind == "disabled" && o.ErrPath >= 0 {
+		if (in.kind == "disabled" || in.kind == "patnil") && o.ErrPath >= 0 {
 			o.N = int64(o.ErrPath)
 		}
 		return o
@@ -543,7 +561,7 @@ func (in *instance) callWith(op, tok string, m flat, arg any, shared bool) (o ob
 			}
 			cur = mp["next"]
 		}
-	case "compat2", "anylist", "objreq", "listarg":
+	case "compat2", "anylist", "objreq", "listarg", "patnil", "emptydef":
 		// verdict only
 	case "disabled":
 		o.N = 1
